@@ -15,6 +15,7 @@ import itertools
 import os
 from ..core import AnalysisError, norm, walk_no_nested, const_fold, Mod
 from .. import pathx as P
+from .. import pyconst
 
 VER = "litex/gen/fhdl/verilog.py"
 EXP = "litex/gen/fhdl/expression.py"
@@ -469,6 +470,23 @@ def run(ctx):
             ctx.ob("C01.j", rel, fname, f"range bound `{norm(e)}` is (len|stop) - 1", ok,
                    "" if ok else f"`{norm(js)[:70]}` prints `{norm(e)}` as an inclusive Verilog bound without - 1 (off by one bit)", js)
     ctx.ob("C01.j", EXP, "<ranges>", "range sites found", nsites >= 6, f"only {nsites} printed ranges found")
+    # declarations by value: `_generate_signal` interpreted on model signals -- `signed` printed exactly for signed signals of every
+    # width (a 1-bit signed signal holds 0 / -1 and is sign-extended by the simulator), range [n-1:0] exactly for n > 1, the name
+    from ..pyconst import NS as _NS, Native as _Native
+    gsig = em.func("_generate_signal")
+    bad = None
+    for nb in (1, 2, 8, 33):
+        for sg in (False, True):
+            try:
+                kind, txt = pyconst.call(gsig, {"ns": _NS(get_name=_Native(lambda x_: "the_sig")), "s": _NS(signed=sg, nbits=nb, __len__=nb)},
+                                         funcs={f_.name: f_ for f_ in em.tree.body if isinstance(f_, ast.FunctionDef)})
+            except Exception as ex:     # noqa
+                ctx.need(False, f"_generate_signal cannot be interpreted ({type(ex).__name__}: {ex})")
+            toks = txt.split() if kind == "return" and isinstance(txt, str) else None
+            want = (["signed"] if sg else []) + ([f"[{nb - 1}:0]"] if nb > 1 else []) + ["the_sig"]
+            if toks != want and bad is None:
+                bad = f"a {'signed' if sg else 'unsigned'} {nb}-bit signal is declared `{' '.join(toks) if toks else txt}`, expected `{' '.join(want)}`"
+    ctx.ob("C01.j", EXP, "_generate_signal", "declaration = [signed] [n-1:0] name for every width and signedness", bad is None, bad or "", gsig)
     gsl = em.func("_generate_slice")
     gdefs = {n.targets[0].id: n.value for n in ast.walk(gsl) if isinstance(n, ast.Assign) and isinstance(n.targets[0], ast.Name)}
 
